@@ -32,30 +32,30 @@ theorem runStep_good (prog : Program) (fuel : Nat) (pipe : String) (d : StepDef)
     have hW : ∀ k : String, k = "call" ∨ k = "jump" ∨ k = "switch" → k ∉ ["runErrors", "p"] := by
       intro k hk; rcases hk with rfl | rfl | rfl <;> decide
     have plain : ∀ r : Res, (∀ c, r ≠ .call c) →
-        Good s (runStepWith d (fun s => (s, r))
+        Good s (runStepDescribed d (fun s => (s, r))
           (fun (c : CofCfg) s' => runGroups fuel prog (s'.stack.head?.getD pipe) c.groups c.success c.failure s') fuel s).1 :=
-      fun r hr => runStepWith_keeps good d _ _ fuel (saveError_good d) (fun s => good.refl s) hc
+      fun r hr => runStepDescribed_keeps good d _ _ fuel (saveError_good d) (fun s => good.refl s) hc
         (fun s s1 c h => by injection h with _ h2; exact absurd h2 (hr c))
         (setIn_good d hd) (unsetIn_good d hd) s
     cases kind with
     | probe =>
-      exact runStepWith_keeps good d probeStep _ fuel (saveError_good d) probeStep_good hc
+      exact runStepDescribed_keeps good d probeStep _ fuel (saveError_good d) probeStep_good hc
         (fun s s1 c h => absurd h (probeStep_not_call s s1 c)) (setIn_good d hd) (unsetIn_good d hd) s
     | stop => exact plain .stop (by intro c h; cases h)
     | stopPipeline => exact plain .stopPipeline (by intro c h; cases h)
     | stopGroup => exact plain .stopGroup (by intro c h; cases h)
     | call =>
-      exact runStepWith_keeps good d (cofStep "call" true) _ fuel (saveError_good d)
+      exact runStepDescribed_keeps good d (cofStep "call" true) _ fuel (saveError_good d)
         (fun s => sameCtx_good _ _ (cofStep_ctx _ _ s)) hc
         (fun s s1 c h => by rw [cofStep_callKey _ _ _ _ _ h]; exact hW _ (.inl rfl))
         (setIn_good d hd) (unsetIn_good d hd) s
     | jump =>
-      exact runStepWith_keeps good d (cofStep "jump" false) _ fuel (saveError_good d)
+      exact runStepDescribed_keeps good d (cofStep "jump" false) _ fuel (saveError_good d)
         (fun s => sameCtx_good _ _ (cofStep_ctx _ _ s)) hc
         (fun s s1 c h => by rw [cofStep_callKey _ _ _ _ _ h]; exact hW _ (.inr (.inl rfl)))
         (setIn_good d hd) (unsetIn_good d hd) s
     | switch =>
-      exact runStepWith_keeps good d switchStep _ fuel (saveError_good d)
+      exact runStepDescribed_keeps good d switchStep _ fuel (saveError_good d)
         (fun s => sameCtx_good _ _ (switchStep_ctx s)) hc
         (fun s s1 c h => by rw [switchStep_callKey _ _ _ h]; exact hW _ (.inr (.inr rfl)))
         (setIn_good d hd) (unsetIn_good d hd) s
@@ -105,14 +105,21 @@ theorem allGood_succ (prog : Program) (hp : progOk prog = true) (n : Nat) (ih : 
         | exact good.trans h1 (ih2 pipe rest (fun d' hd' => hds d' (List.mem_cons_of_mem _ hd')) s1)
   · -- runStepGroup
     intro pipe g rs s
-    rw [runStepGroup_eq]
-    generalize hr : runSteps n prog pipe (groupSteps prog pipe g) s = p
-    obtain ⟨s1, r⟩ := p
-    have h1 : Good s s1 := keeps_pair (ih2 pipe _ (progOk_groupSteps prog hp pipe g)) hr
-    cases r <;> simp only [] <;> first
-      | exact h1
-      | exact good.trans h1 (ih6 _ _ _ _ s1)
-      | (split <;> exact h1)
+    cases hgs : getPipelineSteps prog pipe g with
+    | error e =>
+      obtain ⟨en, em⟩ := e
+      rw [runStepGroup_unsized n prog pipe g rs s en em hgs]
+      exact rel_raiseNew good _ _ _
+    | ok ss =>
+      have hss : groupSteps prog pipe g = ss := by unfold groupSteps; rw [hgs]
+      rw [runStepGroup_eq' n prog pipe g rs s ss hgs]
+      generalize hr : runSteps n prog pipe ss s = p
+      obtain ⟨s1, r⟩ := p
+      have h1 : Good s s1 := keeps_pair (ih2 pipe _ (hss ▸ progOk_groupSteps prog hp pipe g)) hr
+      cases r <;> simp only [] <;> first
+        | exact h1
+        | exact good.trans h1 (ih6 _ _ _ _ s1)
+        | (split <;> exact h1)
   · -- runGroupList
     intro pipe gs s
     cases gs with
